@@ -246,7 +246,7 @@ def replay_collect(ctx, cands):
     for c in cands:
         stage = c.model.get('stage')
         found = None
-        for rows in (ROWS, []):
+        for rows in (ROWS, [], [[1, 2], [], 3, {'k': 'x', 'v': [4]}]):
             argv = (['--group-by', '.k'] if stage == 'Grouper' else ['--merge']) + ['--style', 'consise']
             exp = refpipe.pipeline(rows, group='.k' if stage == 'Grouper' else None, merge=stage == 'Merger')
             r = run_jawk(ctx, argv, ' '.join(json.dumps(x) for x in rows).encode())
